@@ -20,7 +20,7 @@ RULE = ('one run = one composed module (C02 composer; 30% of the explicit instan
         'empty set / the finalize() set of a counting pre-pass / an adversarial set, InstantiationOptimizer, and stacks of two transformers. Per thunk: all stacks raise or none does, '
         'all conclusions are equal to each other and to .conc modulo notation. Non-trivial = thunk with a rule/library step in its cone; distinct = distinct event-log digests.')
 TRANSITION_MEASURE = '(interpreter stack, outcome class, position in the order) tuples'
-PROBES = ['stacks_ge6', 'memo_with_finalize_set', 'memo_adversarial_set', 'two_transformers', 'wrong_advertised_conclusion', 'proofexp_instantiate_used', 'all_raise_consistently', 'dynamic_inst_used']
+PROBES = ['stacks_ge6', 'memo_with_finalize_set', 'memo_adversarial_set', 'two_transformers', 'wrong_advertised_conclusion', 'proofexp_instantiate_used', 'all_raise_consistently', 'dynamic_inst_used', 'claims_list_shared', 'results_published']
 ASSUMPTIONS = ['expressions are built only with the public DSL and the libraries (no hand-written lambdas that break the stack discipline)']
 COMPONENTS = dict(_p.COMPONENTS, **{'all interpreter classes and transformers': 'real'})
 
@@ -58,10 +58,15 @@ def generate(rng, tier):
     n = rng.choice([5, 6, 8])
     order = ['basic'] + rng.sample(STACKS[1:], n - 1)
     rng.shuffle(order)
-    return {'compose': rng.getrandbits(48), 'order': order, 'pinst': rng.getrandbits(30), 'wrong': rng.random() < 0.1, '_tier': tier}
+    sc = {'compose': rng.getrandbits(48), 'order': order, 'pinst': rng.getrandbits(30), 'wrong': rng.random() < 0.1, '_tier': tier}
+    # as ProofExp.execute_proofs_phase does: every result is published against the claim queue; and, as ProofExp.serialize
+    # does, one claims list object is handed to several interpreters
+    sc['publish'] = rng.random() < 0.5
+    sc['share_claims'] = rng.random() < 0.5
+    return sc
 
 
-def make_interp(name, mod, memo_sets):
+def make_interp(name, mod, memo_sets, shared_claims=None):
     from proof_generation.interpreter import ExecutionPhase
     from proof_generation.basic_interpreter import BasicInterpreter
     from proof_generation.stateful_interpreter import StatefulInterpreter
@@ -72,7 +77,7 @@ def make_interp(name, mod, memo_sets):
     from proof_generation.claim import Claim
     parts = name.split('+')
     base = parts[-1]
-    claims = [Claim(c) for c in mod._claims]
+    claims = shared_claims if shared_claims is not None else [Claim(c) for c in mod._claims]
     if base == 'basic': it = BasicInterpreter(ExecutionPhase.Gamma)
     elif base == 'stateful': it = StatefulInterpreter(ExecutionPhase.Gamma, claims)
     elif base == 'counting': it = CountingInterpreter(ExecutionPhase.Gamma, claims)
@@ -98,7 +103,7 @@ def execute(sc, ctx):
         out.event('refused-at-build', str(e)[:80])
         return out
     mod = b.main
-    out.explicit = {'recipe': recipe, 'order': sc['order'], 'wrong': sc.get('wrong', False)}
+    out.explicit = {'recipe': recipe, 'order': sc['order'], 'wrong': sc.get('wrong', False), 'publish': sc.get('publish', False), 'share_claims': sc.get('share_claims', False)}
     # size gate on a separately built twin (the pretty-printing and counting interpreters are quadratic in the proof size)
     try:
         from ..simfs import SimFS
@@ -141,6 +146,9 @@ def execute(sc, ctx):
     except Exception:
         pass
     results = [dict() for _ in thunks]
+    shared = [Claim(c) for c in mod._claims] if sc.get('share_claims') else None
+    if shared is not None: out.probe('claims_list_shared')
+    if sc.get('publish'): out.probe('results_published')
     for pos, name in enumerate(sc['order']):
         if 'memoF' in name: out.probe('memo_with_finalize_set')
         if 'memoA' in name: out.probe('memo_adversarial_set')
@@ -148,16 +156,23 @@ def execute(sc, ctx):
         try:
             with time_limit(6 if 'pretty' in name else 25):
                 try:
-                    it = make_interp(name, mod, memo_sets)
+                    it = make_interp(name, mod, memo_sets, shared)
                     mod.execute_gamma_phase(it)
                     mod.execute_claims_phase(it)
                 except Exception as e:
                     for r in results: r[name] = ('setup-raise', type(e).__name__)
                     out.event(pos, name, 'setup-raise', type(e).__name__)
                     continue
+                in_step = bool(sc.get('publish'))     # the claim queue is only in step while every earlier expression succeeded
                 for ti, th in enumerate(thunks):
                     try:
-                        pv = th(it)
+                        try:
+                            pv = th(it)
+                        except Exception:
+                            in_step = False
+                            raise
+                        if in_step:
+                            it.publish_proof(pv)
                         try:
                             results[ti][name] = ('ok', B.py_expand(pv.conclusion))
                         except T.Abort as e:
@@ -208,4 +223,6 @@ def shrink(sc):
     if len(sc['order']) > 2:
         for i in range(len(sc['order'])):
             yield dict(sc, order=sc['order'][:i] + sc['order'][i + 1:])
+    if sc.get('publish'): yield dict(sc, publish=False)
+    if sc.get('share_claims'): yield dict(sc, share_claims=False)
     yield from _p.shrink_recipe(sc)
